@@ -263,3 +263,64 @@ SCENARIOS = [
                "Converter._bind", "Converter._fail"),
              kind="bounded", bound=f"{len(SHAPES)} statement shapes on real ast nodes, <= 3 targets"),
 ]
+
+
+# ------------------------------------------------------------------ attribute parameters promoted to tensors ---
+
+def _f(o, name):
+    """field of a real object or of a symbolic-heap stand-in"""
+    return o.fields.get(name) if isinstance(o, SObj) else getattr(o, name, None)
+
+
+def s_attr_promotion(ctx):
+    """Converter._to_onnx_var / _to_onnx_attr_ref on attribute parameters used as tensor operands: EVERY use is computed by a Constant node
+    whose attribute is a REFERENCE to the parameter that was used (kind table FLOAT / INT / STRING / INTS), followed by Cast(to=BOOL) iff
+    the parameter is a Python bool; the result is castable; other kinds are refused.  Sequences of uses of TWO parameters (same or different
+    kind) in one graph: a use of `beta` after a use of `alpha` must still denote beta."""
+    import onnx_ir as ir
+    from onnxscript._internal import values
+    from onnxscript import onnx_types
+    I, self, C, conv, values_, _ir = _world(ctx)
+    kinds = [ir.AttributeType.FLOAT, ir.AttributeType.INT, ir.AttributeType.STRING, ir.AttributeType.INTS, ir.AttributeType.FLOATS]
+    table = {ir.AttributeType.FLOAT: "value_float", ir.AttributeType.INT: "value_int", ir.AttributeType.STRING: "value_string", ir.AttributeType.INTS: "value_ints"}
+    params = {}
+    for nm in ("alpha", "beta"):
+        k = kinds[ctx.choose(len(kinds), f"kind of {nm}")]
+        as_bool = k is ir.AttributeType.INT and ctx.choose(2, f"{nm} is a python bool") == 1
+        attr = ir.Attr(nm, k, value=None)
+        params[nm] = (values.AttrRef(attr, as_bool, CM.real_info()), k, as_bool)
+    order = [["alpha", "beta"], ["alpha", "beta", "alpha"], ["beta", "alpha"]][ctx.choose(3, "order of uses")]
+    log = ctx.ghost["log"]
+    P = "C01.converter.attribute_parameter."
+    CLA = "C01: 'attribute parameters promoted to tensors' - the tensor denotes the attribute parameter that the source names"
+    for use, nm in enumerate(order):
+        ref, k, as_bool = params[nm]
+        n0 = len(log.nodes)
+        try:
+            r = I.call(I.getattr(self, "_to_onnx_var"), [ref, "t", CM.real_info()])
+        except PyRaise:
+            ctx.check(P + "refused_only_for_kinds_without_a_Constant_form", k not in table, CL_REFUSE)
+            return
+        ctx.check(P + "kinds_without_a_Constant_form_are_refused", k in table, CL_REFUSE)
+        if k not in table:
+            return
+        # the value must be computed by a Constant (and a Cast for bools) whose attribute refers to THIS parameter — a node emitted now or earlier
+        prod = r.fields.get("ghost_node") if isinstance(r, SObj) else None
+        okc = prod is not None
+        if okc and as_bool:
+            okc = prod["op"] == "Cast" and len(prod["inputs"]) == 1 and [(_f(a, "name"), _f(a, "value")) for a in prod["attrs"]] == [("to", onnx_types.BOOL.dtype)]
+            prod = prod["inputs"][0].fields.get("ghost_node") if okc else None
+        ctx.check(P + "a_python_bool_parameter_is_cast_to_BOOL_and_only_it", okc and prod is not None and (as_bool or prod["op"] == "Constant"), CLA)
+        if not (okc and prod is not None):
+            return
+        attrs = prod["attrs"]
+        ok = prod["op"] == "Constant" and not prod["inputs"] and len(attrs) == 1 and _f(attrs[0], "ref_attr_name") == nm and _f(attrs[0], "name") == table[k] \
+            and _f(attrs[0], "type") is k
+        ctx.check(P + "each_use_is_a_Constant_whose_attribute_refers_to_the_parameter_used", ok,
+                  CLA + f" (use {use + 1} of {order}: got {[(_f(a, 'name'), _f(a, 'ref_attr_name')) for a in attrs]})")
+        nm_r = r.fields["name"]
+        ctx.check(P + "the_promoted_tensor_is_castable", I.contains(self.fields["_castable"], nm_r) is True or nm_r in self.fields["_castable"], "C12: attribute parameters promoted to tensors take the operand's type")
+
+
+SCENARIOS.append(Scenario("C01.converter.attribute_parameter", s_attr_promotion, F("Converter._to_onnx_var", "Converter._to_onnx_attr_ref"),
+                          kind="bounded", bound="two attribute parameters, each of kind FLOAT / INT (int or bool) / STRING / INTS / FLOATS; three orders of 2-3 uses in one graph"))
